@@ -173,9 +173,10 @@ def rule_R4(ctx, prj):
     from .. import brackets_eval
     bal = prj.func(brackets_eval.QUAL)
     try:
-        n, div = brackets_eval.explore(prj)
+        maxlen = 7 if ctx.tier == "thorough" else 4
+        n, div = brackets_eval.explore(prj, maxlen)
         if div is None:
-            ctx.ok("R4", bal.site(), f"balanced matching evaluated on {n} sequences over (opening, closing, other) up to length 4: the opening symbol pushes, "
+            ctx.ok("R4", bal.site(), f"balanced matching evaluated on {n} sequences over (opening, closing, other) up to length {maxlen}: the opening symbol pushes, "
                                      f"the closing one pops and records (opening index, closing index), inner pairs iff extract_nested, outermost always")
             ctx.ok("R4", bal.site(), "balanced matching: pairs as the reference matcher")
             ctx.ok("R4", bal.site(), "balanced matching: nesting flag as the reference matcher")
@@ -189,7 +190,8 @@ def rule_R4(ctx, prj):
         _balanced(ctx, prj, bal)
     py = prj.maybe_func("codelimit.languages.Python:Python.extract_blocks")
     if py is not None:
-        _python_suites(ctx, prj, py)
+        if not _python_suites_evaluated(ctx, prj, py):
+            _python_suites(ctx, prj, py)
 
 
 def _is_empty_test(e, stack: str):
@@ -295,6 +297,38 @@ def _balanced(ctx, prj, bal):
             ctx.viol("R4", "get_balanced_symbol_token_indices/nesting-flag", bal.site(c), f"a pair is recorded when `{unparse(test)}`; required `{nested_p} or <stack empty>`")
         else:
             raise AnalysisError(f"{bal.site(c)}: recording condition `{unparse(test)}` (polarity {pol}) not understood")
+
+
+def _python_suites_evaluated(ctx, prj, py) -> bool:
+    """Python.extract_blocks interpreted on token programs with a reference; False when it leaves the interpreted fragment"""
+    from ..absint import Unknown
+    from .. import pyblocks_eval
+    try:
+        res = pyblocks_eval.evaluate(prj)
+    except (Unknown, AnalysisError) as e:
+        ctx.info(f"Python.extract_blocks not evaluable ({e}); structural reading of its comparisons")
+        return False
+    bad = [(n, g, w) for n, g, w in res if g != w]
+    if not bad:
+        ctx.ok("R4", py.site(), f"Python suites: evaluated on {len(res)} token programs (sibling at the header's indentation, header over two lines, nested and "
+                                f"one-line functions, method bodies, header at the end of the file): the suite is the run of following lines indented "
+                                f"strictly deeper than the header's first token, ending one past its last token")
+        ctx.ok("R4", py.site(), "Python suites: the scan stops at the header's own line (evaluated)")
+        ctx.ok("R4", py.site(), "Python suites: range ends one past the suite's last token (evaluated)")
+        return True
+    n, g, w = bad[0]
+    key = "Python.extract_blocks/indentation"
+    if isinstance(g, str):
+        key = "Python.extract_blocks/raises"
+    elif "two lines" in n or "one-line" in n:
+        key = "Python.extract_blocks/header-line"
+    elif isinstance(g, list) and isinstance(w, list) and len(g) == len(w) and all(a[0] == b[0] for a, b in zip(g, w)):
+        key = "Python.extract_blocks/exclusive-end"
+    ctx.viol("R4", key, py.site(), f"for the program '{n}' Python.extract_blocks {g if isinstance(g, str) else 'returns the token ranges ' + str(g)}; required {w} "
+                                   f"(the lines after the header's last line indented strictly deeper than the header's first token, up to the first "
+                                   f"line that is not, from the first token of the first to one past the last token of the last)"
+                                   + (f"; {len(bad)} of {len(res)} programs differ" if len(bad) > 1 else ""))
+    return True
 
 
 def _python_suites(ctx, prj, py):
